@@ -3,7 +3,7 @@
 (* Trace specification for the mixture models: posteriors (C01), mixture   *)
 (* weights (C08/C09), initializers (C01).                                  *)
 (***************************************************************************)
-EXTENDS Posterior, Weights, Model, LinAlg, TraceKit
+EXTENDS Posterior, Weights, Model, LinAlg, InlinePA, TraceKit
 VARIABLES l, verdicts
 vars == <<l, verdicts>>
 SL == 64
@@ -434,6 +434,17 @@ FixedPointChecks(r) ==
                         pn2 == FSum([a \in 1..D |-> FSq(Get(r.mprotos, r.mleads[i] \o <<k, a - 1>>))])
                     IN  FLe(d2, FMul(FSq(FPDelta), pn2))>> >> ELSE <<>>)
 
+(* ---- inlinepa : built-in spatial/spectral alignment of the integration models, exact lattice (C14) ---- *)
+\* r.ms, r.me : K x T integers (log-pdfs in units of ln 2); r.w : K integers (lattice weights); r.out : K x T rationals
+InlinePAChecks(r) ==
+  IF r.exc # "" THEN << <<"raises", FALSE>> >>
+  ELSE LET Kn == Len(r.ms) Tn == Len(r.ms[1])
+       IN IF ~(\A k \in 1..Kn, t \in 1..Tn : IsRatP(r.out[k][t])) THEN << <<"finite_rational", FALSE>> >>
+          ELSE << <<"bayes_for_a_best_permutation",
+                    \E p \in PermSet(Kn) : /\ IsBest(r.ms, r.me, p)
+                                           /\ \A k \in 1..Kn, t \in 1..Tn : REq(r.out[k][t], Post(r.ms, r.me, r.w, p)[k][t])>>,
+                  <<"sums_to_one", \A t \in 1..Tn : RSum([k \in 1..Kn |-> r.out[k][t]]) = <<1, 1>>>> >>
+
 Checks(r) == CASE r.kind = "bayesx" -> BayesXChecks(r) [] r.kind = "posterior" -> PostChecks(r)
                [] r.kind = "init" -> InitChecks(r) [] r.kind = "flag" -> FlagChecks(r)
                [] r.kind = "weightx" -> WeightXChecks(r)
@@ -441,6 +452,7 @@ Checks(r) == CASE r.kind = "bayesx" -> BayesXChecks(r) [] r.kind = "posterior" -
                [] r.kind = "domain" -> DomainChecks(r)
                [] r.kind = "mstep" -> MStepChecks(r) [] r.kind = "qform" -> QFormChecks(r) [] r.kind = "loop" -> LoopChecks(r)
                [] r.kind = "fixedpoint" -> FixedPointChecks(r)
+               [] r.kind = "inlinepa" -> InlinePAChecks(r)
 NT(r) == CASE r.kind = "posterior" -> PostNT(r)
            [] r.kind = "bayesx" -> r.exc = "" /\ Len(r.w) >= 2
            [] r.kind = "twin" -> TwinNT(r)
@@ -448,6 +460,7 @@ NT(r) == CASE r.kind = "posterior" -> PostNT(r)
            [] r.kind = "mstep" -> r.exc = "" /\ KOf(r) >= 2 /\ r.has_sal
            [] r.kind = "loop" -> r.exc = "" /\ r.iterations >= 2
            [] r.kind = "fixedpoint" -> r.exc = "" /\ KOf(r) >= 2
+           [] r.kind = "inlinepa" -> r.exc = "" /\ ~IsBest(r.ms, r.me, IdPerm(Len(r.ms)))
            [] OTHER -> r.exc = ""
 Init == l = 1 /\ verdicts = <<>>
 Next == /\ l <= Len(Trace)
